@@ -238,3 +238,91 @@ def has_letters(pattern, flags=FLAGS):
                 rec(av[3])
     rec(parse(pattern, flags))
     return n[0] >= 2
+
+
+# ------------------------------------------------------------------------------ can a match start with character c
+
+def can_start_with(pattern, ch, flags=FLAGS):
+    """over-approximation: may some match of `pattern` begin with character `ch`? (look-arounds and anchors are
+    ignored, back-references count as 'anything')"""
+    acc, _nullable = _starts(parse(pattern, flags), ch, bool(flags & re.IGNORECASE))
+    return acc
+
+
+def _ci_eq(a, b, ic):
+    if a == b:
+        return True
+    return ic and (a.lower() == b.lower() or a.upper() == b.upper())
+
+
+def _cat(cat, ch):
+    if cat is C.CATEGORY_SPACE:
+        return ch.isspace()
+    if cat is C.CATEGORY_NOT_SPACE:
+        return not ch.isspace()
+    if cat is C.CATEGORY_DIGIT:
+        return ch.isdigit()
+    if cat is C.CATEGORY_NOT_DIGIT:
+        return not ch.isdigit()
+    if cat is C.CATEGORY_WORD:
+        return ch.isalnum() or ch == '_'
+    if cat is C.CATEGORY_NOT_WORD:
+        return not (ch.isalnum() or ch == '_')
+    return True
+
+
+def _in_accepts(av, ch, ic):
+    neg = False
+    hit = False
+    for iop, iav in av:
+        if iop is C.NEGATE:
+            neg = True
+        elif iop is C.LITERAL:
+            hit = hit or _ci_eq(chr(iav), ch, ic)
+        elif iop is C.RANGE:
+            lo, hi = iav
+            hit = hit or lo <= ord(ch) <= hi or (ic and (lo <= ord(ch.lower()) <= hi or lo <= ord(ch.upper()[:1] or ch) <= hi))
+        elif iop is C.CATEGORY:
+            hit = hit or _cat(iav, ch)
+        else:
+            hit = True
+    return (not hit) if neg else hit
+
+
+def _starts(seq, ch, ic):
+    """(can a match start with ch, can the sequence match the empty string)"""
+    for op, av in seq:
+        a, n = _starts_item(op, av, ch, ic)
+        if a:
+            return True, False
+        if not n:
+            return False, False
+    return False, True
+
+
+def _starts_item(op, av, ch, ic):
+    if op is C.LITERAL:
+        return _ci_eq(chr(av), ch, ic), False
+    if op is C.NOT_LITERAL:
+        return not _ci_eq(chr(av), ch, ic), False
+    if op is C.ANY:
+        return True, False
+    if op is C.IN:
+        return _in_accepts(av, ch, ic), False
+    if op is C.BRANCH:
+        acc, nullable = False, False
+        for b in av[1]:
+            a, n = _starts(b, ch, ic)
+            acc, nullable = acc or a, nullable or n
+        return acc, nullable
+    if op in (C.MAX_REPEAT, C.MIN_REPEAT):
+        lo, _hi, sub = av
+        a, n = _starts(sub, ch, ic)
+        return a, (lo == 0) or n
+    if op is C.SUBPATTERN:
+        return _starts(av[3], ch, ic)
+    if op in (C.AT, C.ASSERT, C.ASSERT_NOT):
+        return False, True
+    if op in (C.GROUPREF, C.GROUPREF_EXISTS):
+        return True, True
+    raise ValueError('regex op %r not modelled' % (op,))
